@@ -40,3 +40,13 @@ Lemma sockopts_whitelist_refuted :
   sko_control_whitelist sko_w SkoTcp6 = sko_control sko_w SkoTcp6 /\
   sko_control_whitelist sko_w SkoUdp4 = sko_control sko_w SkoUdp4.
 Proof. vm_compute. repeat split. Qed.
+
+(* the stream sockets of a router (listeners, upstream connections) carry TCP_USER_TIMEOUT = 5000 ms and every
+   configured option *)
+Lemma router_sockets o n :
+  sko_is_tcp n = true ->
+  ska_utimeout (sko_router_control o n) = Some 5000 /\
+  ska_mark (sko_router_control o n) = ska_mark (sko_control o n) /\
+  ska_dev (sko_router_control o n) = ska_dev (sko_control o n) /\
+  ska_reuseport (sko_router_control o n) = sko_reuseport o.
+Proof. intros H. unfold sko_router_control, sko_control. cbn. rewrite H. repeat split. Qed.
